@@ -208,7 +208,42 @@ def check_forwarder(chk, rule, qual, callee_qual, roles=None, allow_const=True, 
             binding[k.arg] = k.value
     bad = []
     used = set()
+    from .poly import Normaliser as _N, Poly as _P
+    assigns = {}
+    for n in ast.walk(fi.node):
+        if isinstance(n, ast.Assign) and len(n.targets) == 1 and isinstance(n.targets[0], ast.Name):
+            assigns.setdefault(n.targets[0].id, []).append(n.value)
+
+    def through_locals(e, depth=0):
+        """a local that is assigned a bare parameter on some path (possibly through value-preserving coercions, possibly
+        substituted by something else on other paths: a default / sentinel) stands for that parameter"""
+        if isinstance(e, ast.Name) and e.id not in fi.params and e.id in assigns and depth < 4:
+            cands = set()
+            for v in assigns[e.id]:
+                pv = _N().poly(v)
+                ats = sorted(pv.atoms())
+                if len(ats) == 1 and pv == _P.atom(ats[0]) and ats[0] in fi.params:
+                    cands.add(ats[0])
+                elif isinstance(v, ast.Name):
+                    r = through_locals(v, depth + 1)
+                    if isinstance(r, ast.Name) and r.id in fi.params:
+                        cands.add(r.id)
+            if len(cands) == 1:
+                return ast.Name(id=cands.pop(), ctx=ast.Load())
+        pv = _N().poly(e) if isinstance(e, ast.Call) else None
+        if pv is not None:
+            ats = sorted(pv.atoms())
+            if len(ats) == 1 and pv == _P.atom(ats[0]) and ats[0] in fi.params:
+                return ast.Name(id=ats[0], ctx=ast.Load())
+        return e
+    # a forwarded parameter may be re-bound to a value-preserving coercion of itself or substituted wholesale, never rescaled
+    for pn in fi.params:
+        for v in assigns.get(pn, []):
+            names = {x.id for x in ast.walk(v) if isinstance(x, ast.Name)}
+            if pn in names and _N().poly(v) != _P.atom(pn):
+                bad.append("%s is re-bound to %s before the call" % (pn, " ".join(ast.unparse(v).split())[:60]))
     for cp, expr in binding.items():
+        expr = through_locals(expr)
         if isinstance(expr, ast.Name) and expr.id in fi.params:
             want = roles.get(cp, cp)
             used.add(expr.id)
